@@ -23,15 +23,24 @@ pub const POOL: &[&str] = &[
 
 fn qname(rng: &mut Rng, locals: &[&str]) -> String {
     let p = *rng.pick(&["", "", "p", "q", "xml", "x"]);
-    let l = *rng.pick(locals);
+    let l = if rng.chance(1, 12) { format!("fresh{}", rng.below(40)) } else { rng.pick(locals).to_string() };
     if p.is_empty() {
-        l.to_string()
+        l
     } else {
         format!("{}:{}", p, l)
     }
 }
 
-fn gen_el(rng: &mut Rng, depth: usize, out: &mut String) {
+fn gen_pi(rng: &mut Rng, out: &mut String) {
+    let t = *rng.pick(&["a", "b", "p", "q", "x", "id", "xml-stylesheet", "A"]);
+    if rng.chance(1, 2) {
+        out.push_str(&format!("<?{}?>", t));
+    } else {
+        out.push_str(&format!("<?{} d?>", t));
+    }
+}
+
+fn gen_el(rng: &mut Rng, depth: usize, out: &mut String, feat: &mut Vec<&'static str>) {
     let name = qname(rng, &["a", "b", "c", "A", "id", "space"]);
     out.push('<');
     out.push_str(&name);
@@ -45,13 +54,23 @@ fn gen_el(rng: &mut Rng, depth: usize, out: &mut String) {
         }
     }
     for _ in 0..rng.below(3) {
-        let uri = *rng.pick(&["urn:a", "urn:b", "urn:c", "", XML_NS]);
+        let uri = *rng.pick(&["urn:a", "urn:b", "urn:c", "", XML_NS, "a", "&amp;x", "urn:fresh"]);
         match rng.below(3) {
-            0 => out.push_str(&format!(" xmlns=\"{}\"", uri)),
-            _ => out.push_str(&format!(" xmlns:{}=\"{}\"", rng.pick(&["p", "q", "x", "a"]), uri)),
+            0 => {
+                if uri.is_empty() {
+                    feat.push("doc.xmlns-empty");
+                }
+                feat.push("doc.default-declaration");
+                out.push_str(&format!(" xmlns=\"{}\"", uri))
+            }
+            _ => {
+                feat.push("doc.prefix-declaration");
+                out.push_str(&format!(" xmlns:{}=\"{}\"", rng.pick(&["p", "q", "x", "a"]), uri))
+            }
         }
     }
     for _ in 0..rng.below(3) {
+        feat.push("doc.attribute");
         out.push_str(&format!(" {}=\"v\"", qname(rng, &["a", "b", "id", "space", "lang", "x"])));
     }
     if depth >= 2 || rng.chance(1, 3) {
@@ -60,14 +79,64 @@ fn gen_el(rng: &mut Rng, depth: usize, out: &mut String) {
     }
     out.push('>');
     for _ in 0..rng.below(3) {
-        gen_el(rng, depth + 1, out);
+        if rng.chance(1, 5) {
+            feat.push("doc.pi");
+            gen_pi(rng, out);
+        }
+        gen_el(rng, depth + 1, out, feat);
     }
     out.push_str(&format!("</{}>", name));
 }
 
-pub fn gen_doc(rng: &mut Rng) -> String {
+/// Fixed documents for the registrations the property names: the same local name in two
+/// namespaces, attribute vs element use of one name, PI targets, `xmlns=""`, one string used as
+/// prefix / URI / local name, decoded URIs, and registrations made before a `ParseError`.
+pub const CORNER_DOCS: &[(&str, &str)] = &[
+    ("same-local-two-namespaces", "<a xmlns=\"urn:a\"><a xmlns=\"\"/><a xmlns=\"urn:b\"/></a>"),
+    ("element-vs-attribute", "<p:a xmlns:p=\"urn:a\" xmlns:q=\"urn:b\"><q:a p:a=\"1\" q:a=\"2\" a=\"3\"/><a/></p:a>"),
+    ("pi-targets", "<?a b?><a><?xml-stylesheet x?><?p?><?a?></a><?q?>"),
+    ("one-string-everywhere", "<a:a xmlns:a=\"a\" a:a=\"a\" a=\"a\"><?a a?></a:a>"),
+    ("xmlns-empty", "<a xmlns=\"\"><b xmlns=\"urn:a\"><c xmlns=\"\"/></b></a>"),
+    ("xml-names", "<a xml:id=\"i\" xml:space=\"preserve\" xml:lang=\"en\"/>"),
+    ("decoded-uri", "<a xmlns:p=\"&amp;x\" xmlns:q=\"&#x75;rn:a\"><p:b/><q:b/></a>"),
+    ("unknown-prefix", "<a><u:b c=\"1\"/></a>"),
+    ("unknown-attribute-prefix", "<a b=\"1\" u:c=\"2\" d=\"3\"/>"),
+    ("duplicate-attribute", "<a b=\"1\" c=\"2\" b=\"3\"/>"),
+    ("duplicate-expanded-attribute", "<a xmlns:p=\"urn:a\" xmlns:q=\"urn:a\" p:b=\"1\" q:b=\"2\"/>"),
+    ("duplicate-declaration", "<a xmlns:p=\"urn:a\" xmlns:p=\"urn:b\"/>"),
+    ("bad-entity-in-uri", "<a xmlns:p=\"&bad;\" xmlns:q=\"urn:a\"/>"),
+    ("mismatched-close", "<a><b></c></a>"),
+    ("unclosed", "<a><b>"),
+    ("dtd", "<!DOCTYPE a><a/>"),
+    ("two-top-elements", "<a/><b/>"),
+    ("rebinding", "<p:a xmlns:p=\"urn:a\"><p:a xmlns:p=\"urn:b\"><p:a xmlns:p=\"urn:a\"/></p:a></p:a>"),
+];
+
+pub fn gen_doc(rng: &mut Rng, sink: &mut Sink) -> String {
+    if rng.chance(1, 4) {
+        let (label, doc) = *rng.pick(CORNER_DOCS);
+        sink.stat(&format!("doc.corner.{}", label));
+        return doc.to_string();
+    }
     let mut s = String::new();
-    gen_el(rng, 0, &mut s);
+    let mut feat: Vec<&'static str> = vec![];
+    if rng.chance(1, 8) {
+        feat.push("doc.pi");
+        gen_pi(rng, &mut s);
+    }
+    gen_el(rng, 0, &mut s, &mut feat);
+    if rng.chance(1, 8) {
+        feat.push("doc.pi");
+        gen_pi(rng, &mut s);
+    }
+    if s.contains("fresh") {
+        feat.push("doc.fresh-name");
+    }
+    feat.sort();
+    feat.dedup();
+    for f in feat {
+        sink.stat(f);
+    }
     s
 }
 
@@ -100,7 +169,7 @@ fn random_history(rng: &mut Rng, bank: &Bank, fails: &mut Fails, sink: &mut Sink
                 rng.below(h.cur.ns.order.len().min(CAPACITY))
             }
         };
-        match rng.below(20) {
+        match rng.below(24) {
             0..=2 => {
                 let s = gen_str(rng, &locals);
                 h.add_name_ns(&s, 0, true);
@@ -154,8 +223,10 @@ fn random_history(rng: &mut Rng, bank: &Bank, fails: &mut Fails, sink: &mut Sink
                     h.builtins()
                 }
             }
+            19 => h.builtins(),
+            20..=22 => h.parse_doc(rng),
             _ => {
-                if rng.chance(1, 6) {
+                if rng.chance(1, 2) {
                     h.html5()
                 } else {
                     h.builtins()
@@ -230,7 +301,7 @@ fn long_history(bank: &Bank, fails: &mut Fails, sink: &mut Sink) {
 /// Thorough tier: every history of at most `maxlen` registrations over a small alphabet, each
 /// followed by the same battery of lookups.
 fn exhaustive(maxlen: usize, bank: &Bank, fails: &mut Fails, sink: &mut Sink) {
-    const OPS: usize = 8;
+    const OPS: usize = 10;
     let mut idx: Vec<usize> = vec![];
     loop {
         {
@@ -244,7 +315,9 @@ fn exhaustive(maxlen: usize, bank: &Bank, fails: &mut Fails, sink: &mut Sink) {
                     4 => { h.add_namespace("u"); }
                     5 => { h.add_namespace(""); }
                     6 => { h.add_prefix("p"); }
-                    _ => { h.add_prefix("xml"); }
+                    7 => { h.add_prefix("xml"); }
+                    8 => { h.parse_text("<p:a xmlns:p=\"u\" b=\"\"/>", false); }
+                    _ => { h.parse_text("<a xmlns=\"u\"><?b?><a xmlns=\"\"/></a>", false); }
                 }
             }
             h.ro_name("a", 0, true);
